@@ -174,6 +174,9 @@ func init() {
 				time.Sleep(3 * time.Millisecond)
 			case 'f':
 				k := atoi(st[1:])
+				if fl := int(r.inflight.Load()); k > fl {
+					k = fl // only bodies that are executing can finish
+				}
 				c0 := r.completed.Load()
 				for i := 0; i < k; i++ {
 					r.gate <- struct{}{}
@@ -191,6 +194,10 @@ func init() {
 				case <-time.After(3 * time.Second):
 					bad = "script-timeout:l"
 				}
+				for i := 0; i < 6000 && !r.pool.VerifStopped(); i++ {
+					time.Sleep(500 * time.Microsecond)
+				}
+				time.Sleep(3 * time.Millisecond)
 			case 'W': // wait until a worker is parked at the limit yield point
 				if !waitParked(pk["pool.limit.discarded"]) {
 					bad = "script-timeout:W"
@@ -250,5 +257,155 @@ func init() {
 		}
 		return fmt.Sprintf("started=%d dropped=%d stuck=%d refused=%d accepted=%d done=%d maxflight=%d",
 			r.started.Load(), tot.DroppedIterationCount, stuck, refused, r.accepted.Load(), completedOK, r.maxFlight.Load())
+	})
+}
+
+func init() {
+	// jobcounter <ops> — the real pending-counter type, sequentially
+	register("jobcounter", func(a []string) string {
+		var c workers.VerifJobCounter
+		var outs []string
+		for _, op := range strings.Split(a[0], ",") {
+			switch op[0] {
+			case 's':
+				outs = append(outs, fmt.Sprint(c.Set(atoi(op[1:]))))
+			case 'n':
+				outs = append(outs, boolTok(c.None()))
+			case 't':
+				outs = append(outs, boolTok(c.Take()))
+			}
+		}
+		return strings.Join(outs, ",") + " " + fmt.Sprint(c.Raw())
+	})
+
+	// pool.stress <workers> <ticks> <maxJobs> <rounds> — hook-free: fast ticks against many workers with
+	// instantaneous bodies, all ticks issued before cancel; requested must equal started + dropped.
+	register("pool.stress", func(a []string) string {
+		w, ticks, maxn, rounds := atoi(a[0]), atoi(a[1]), atoi(a[2]), atoi(a[3])
+		for rd := 0; rd < rounds; rd++ {
+			r := newPoolRig(w, 0, false)
+			requested := int64(0)
+			x := uint32(rd*7919 + 17)
+			for i := 0; i < ticks; i++ {
+				x = x*1664525 + 1013904223
+				n := int(x>>16)%maxn + 1
+				requested += int64(n)
+				r.pool.Trigger(r.workerCtx, n)
+				if x&7 == 0 {
+					time.Sleep(time.Duration(x>>24) * time.Microsecond / 8)
+				}
+			}
+			r.cancel()
+			done := 1
+			select {
+			case <-r.manager.WaitForCompletion():
+			case <-time.After(5 * time.Second):
+				done = 0
+			}
+			for i := 0; i < 2000 && !r.pool.VerifStopped(); i++ {
+				time.Sleep(100 * time.Microsecond)
+			}
+			time.Sleep(2 * time.Millisecond)
+			tot := r.stats.Total()
+			diff := requested - r.started.Load() - int64(tot.DroppedIterationCount)
+			over := 0
+			if r.maxFlight.Load() > int64(w) {
+				over = 1
+			}
+			if diff != 0 || done == 0 || over == 1 || r.sharedHandle != 0 || rd == rounds-1 {
+				return fmt.Sprintf("diff=%d done=%d overflight=%d shared=%d requested=%d", diff, done, over, r.sharedHandle, requested)
+			}
+		}
+		return "diff=0 done=1 overflight=0 shared=0"
+	})
+
+	// pool.usable <workers> <rounds> — all workers must be usable: every round lets all W gated iterations
+	// finish together (with k < W requests still pending) and, a swept few microseconds later, requests W
+	// more; within the deadline W iterations must be executing.
+	register("pool.usable", func(a []string) string {
+		w, rounds := atoi(a[0]), atoi(a[1])
+		r := newPoolRig(w, 0, true)
+		defer func() { r.cancel(); close(r.gate) }()
+		waitFlight := func(n int64) bool {
+			dl := time.Now().Add(1500 * time.Millisecond)
+			for time.Now().Before(dl) {
+				if r.inflight.Load() == n {
+					return true
+				}
+				time.Sleep(20 * time.Microsecond)
+			}
+			return false
+		}
+		r.pool.Trigger(r.workerCtx, w)
+		if !waitFlight(int64(w)) {
+			return "notUsable=initial"
+		}
+		for rd := 0; rd < rounds; rd++ {
+			pendingBefore := rd % w // fewer requests than workers pending: some takes fail
+			if pendingBefore > 0 {
+				r.pool.Trigger(r.workerCtx, pendingBefore)
+			}
+			for i := 0; i < w; i++ {
+				r.gate <- struct{}{}
+			}
+			// swept delay so that the tick lands while workers race for the pending requests / go to sleep
+			for spin := 0; spin < (rd%40)*30; spin++ {
+				_ = spin
+			}
+			if rd%3 == 0 {
+				time.Sleep(time.Duration(rd%50) * time.Microsecond)
+			}
+			r.pool.Trigger(r.workerCtx, w)
+			// all finished bodies + the new tick: W must be in flight again (possibly after the pendingBefore ones finish)
+			ok := false
+			dl := time.Now().Add(1500 * time.Millisecond)
+			for time.Now().Before(dl) {
+				if r.inflight.Load() == int64(w) && r.completed.Load() >= int64((rd+1)*w) {
+					ok = true
+					break
+				}
+				time.Sleep(20 * time.Microsecond)
+			}
+			if !ok {
+				return fmt.Sprintf("notUsable=round%d inflight=%d", rd, r.inflight.Load())
+			}
+			// drain the extra started ones (pendingBefore) so that exactly W remain in flight
+		}
+		return fmt.Sprintf("notUsable=0 shared=%d", r.sharedHandle)
+	})
+
+	// pool.handles <pools> <workersEach> — several pools of one PoolManager (as the file trigger creates
+	// one per stage) running iterations at the same time must not share a handle.
+	register("pool.handles", func(a []string) string {
+		pools, w := atoi(a[0]), atoi(a[1])
+		r := newPoolRigBase(0, true)
+		var cancels []context.CancelFunc
+		total := 0
+		for i := 0; i < pools; i++ {
+			p := r.manager.NewTriggerPool(w)
+			ctx, cancel := context.WithCancel(context.Background())
+			cancels = append(cancels, cancel)
+			wctx := p.Start(ctx)
+			p.Trigger(wctx, w)
+			total += w
+		}
+		dl := time.Now().Add(2 * time.Second)
+		for time.Now().Before(dl) && r.inflight.Load() < int64(total) {
+			time.Sleep(100 * time.Microsecond)
+		}
+		got := r.inflight.Load()
+		r.idsMu.Lock()
+		shared := r.sharedHandle
+		r.idsMu.Unlock()
+		close(r.gate)
+		for _, c := range cancels {
+			c()
+		}
+		select {
+		case <-r.manager.WaitForCompletion():
+		case <-time.After(3 * time.Second):
+			return "timeout"
+		}
+		return fmt.Sprintf("shared=%d inflight=%d", shared, got)
 	})
 }
